@@ -181,7 +181,7 @@ def _exhaustive(tier, seed):
                 bad.append("create_driver_payload(len=%d, %s): header %s" % (n, a.name, [hex(x) for x in words[:hdr]]))
     if bad:
         import json, os
-        d = os.path.join(_rp.ROOT, "replays", "C17")
+        d = os.path.join(_rp.OUT, "replays", "C17")
         os.makedirs(d, exist_ok=True)
         path = os.path.join(d, "exhaustive_accelerators.json")
         json.dump(dict(property="C17", obligation="exhaustive:accelerator table", failures=bad[:20]), open(path, "w"), indent=1)
